@@ -423,7 +423,21 @@ struct DeflateSession {
                 if (stalled) {
                         uint64_t hc = state_hash();
                         if (suspect && hc == suspect_hash) {
-                                rr.fail("C10.stuck", strf("two consecutive calls (%u) with all input offered, EOS set and %u bytes of output space left the whole stream state byte-identical in state %d: with this buffer size the end state is never reached", calls, out, st_after));
+                                // does a roomy buffer help?  If not even that makes progress, C07's last sentence fails as well
+                                bool roomy_helps = true;
+                                if (!probing && out < 8192) {
+                                        probing = true;
+                                        suspect = false;
+                                        bool ok = call(0, 8192, flush, want_eos, flags & 48, false);
+                                        probing = false;
+                                        if (ok && !rr.violated())
+                                                roomy_helps = state_hash() != hc;
+                                        if (rr.violated())
+                                                return false;
+                                }
+                                rr.fail("C10.stuck", strf("two consecutive calls (%u) with all input offered, EOS set and %u bytes of output space left the whole stream state byte-identical in state %d: with this buffer size the end state is never reached%s", calls, out, st_after, roomy_helps ? "" : "; 8192 bytes of output space make no difference either"));
+                                if (!roomy_helps)
+                                        rr.alt = "C07";
                                 return false;
                         }
                         suspect = true;
@@ -802,9 +816,20 @@ static Json gen_deflate(Rng &r0, const std::string &focus, int tier)
                 data = gen_data_spec(r, maxlen, bias);
         maybe_adler_worst_case(r, focus, data);
         uint64_t n = (uint64_t) data.geti("n");
+        // "cache too small for the fast path": the smallest legal level buffer and poorly compressible input a few times its token
+        // capacity, so that token-buffer-full block boundaries (rare with default sizes) fall everywhere, also inside the finish code
+        bool tiny_lb = r.chance(1, 6);
+        if (tiny_lb) {
+                level = 1 + (int) r.below(3);
+                static const int ks[] = { DK_RANDOM, DK_RANDOM, DK_MIXED, DK_FARCOPY, DK_SKEW };
+                Json d3 = Json::obj();
+                d3.set("k", r.pick(ks)).set("n", (uint64_t) (300 + r.below(6000))).set("s", r.u64() >> 16).set("p", (uint64_t) r.below(2000));
+                data = d3;
+                n = (uint64_t) data.geti("n");
+        }
         p.set("data", data).set("level", level).set("wrap", wrap).set("hb", hb);
         Json lb = Json::arr();
-        lb.push((int) (r.chance(1, 2) ? 0 : r.below(5))).push(r.chance(1, 2) ? 0 : (int) r.below(r.chance(1, 2) ? 64 : 50000)).push((int) r.below(2));
+        lb.push((int) (tiny_lb || r.chance(1, 2) ? 0 : r.below(5))).push(tiny_lb || r.chance(1, 2) ? 0 : (int) r.below(r.chance(1, 2) ? 64 : 50000)).push((int) r.below(2));
         p.set("lb", lb);
         Json hf = Json::obj();
         int ht = r.chance(1, 2) ? IGZIP_HUFFTABLE_DEFAULT : (int) r.below(3);
@@ -823,7 +848,7 @@ static Json gen_deflate(Rng &r0, const std::string &focus, int tier)
                 int w = eff_hist_bits(hb);
                 Json d2 = Json::obj();
                 uint64_t per = r.chance(1, 2) ? 32768 : 1ull << w;
-                d2.set("k", (int) DK_LONGREP).set("n", per + 16 + r.logsize(40000)).set("s", r.u64() >> 16).set("p", per);
+                d2.set("k", (int) DK_LONGREP).set("n", per + 16 + r.logsize(40000)).set("s", r.u64() >> 16).set("p", per).set("runs", (int) r.chance(1, 2));
                 data = d2;
                 n = (uint64_t) data.geti("n");
                 p.set("data", data);
